@@ -38,6 +38,19 @@ def _cum(cls, n, coq, args, attrs, drift=True, extra=None):
     return d
 
 
+def _derived(cls, prefix, args, fields, calls=None):
+    """cached constants of a Parameters class, once as __init__ leaves them and once as initialisation() re-derives them
+    (the calibration sequence: deepcopy, setattr, initialisation(), rebuild the model)"""
+    out = []
+    names = [n for n, _ in args]
+    for f in fields:
+        out.append({"py": f"{cls}.__init__", "coq": f"{prefix}_init_{f.lstrip('_')}", "pyargs": names, "args": args, "ret": R,
+                    "attr_tail": f"self.{f}", "calls": dict(calls or {})})
+        out.append({"py": f"{cls}.initialisation", "coq": f"{prefix}_reinit_{f.lstrip('_')}", "pyargs": [], "args": args, "ret": R,
+                    "attr_tail": f"self.{f}", "attrs": {f"self.{n}": n for n in names}, "calls": dict(calls or {})})
+    return out
+
+
 SPECS = {
     "GenC10Triplet": {
         "file": "rpylib/model/levymodel/levymodel.py", "dom": "R", "consts": dict(REP, **{"np.inf": "INF"}),
@@ -48,6 +61,9 @@ SPECS = {
              "on_raise": "(IZR 0)"},
             {"py": "LevyTriplet.center_drift", "coq": "center_drift", "pyargs": [], "args": _T_ARGS, "ret": R, "attrs": _T_ATTRS, "calls": _T_CALLS},
             {"py": "LevyTriplet.tilde_drift", "coq": "tilde_drift", "pyargs": [], "args": _T_ARGS, "ret": R, "attrs": _T_ATTRS, "calls": _T_CALLS},
+            # drift of the directly simulated NON-exponential Levy model (inherited by HEMModel, MertonModel, VG, CGMY)
+            {"py": "LevyModel.process_drift", "coq": "levy_process_drift", "pyargs": [], "args": [("a", R)], "ret": R,
+             "attrs": {"self.levy_triplet.a": "a"}},
         ],
     },
     "GenC10Hem": {
@@ -66,7 +82,7 @@ SPECS = {
             _cum("_HEMCumulant", 1, "hem_cumulant1", _HEM_ARGS, _HEM_P),
             _cum("_HEMCumulant", 2, "hem_cumulant2", [("sigma", R)] + _HEM_ARGS, _HEM_P, drift=False),
             _cum("_HEMCumulant", 4, "hem_cumulant4", _HEM_ARGS, _HEM_P, drift=False),
-        ],
+        ] + _derived("HEMParameters", "hem", [("sigma", R), ("p", R), ("eta1", R), ("eta2", R), ("intensity", R)], ["_xi"]),
     },
     "GenC10Merton": {
         "file": "rpylib/model/levymodel/mixed/merton.py", "dom": "R",
@@ -90,7 +106,7 @@ SPECS = {
             _cum("_VGCumulant", 1, "vg_cumulant1", _VG_ARGS, _VG_P),
             _cum("_VGCumulant", 2, "vg_cumulant2", _VG_ARGS, _VG_P, drift=False),
             _cum("_VGCumulant", 4, "vg_cumulant4", _VG_ARGS, _VG_P, drift=False),
-        ],
+        ] + _derived("VGParameters", "vg", _VG_ARGS, ["_c", "_lambda_p", "_lambda_m"], {"np.sqrt": "sqrt"}),
     },
     "GenC10Cgmy": {
         "file": "rpylib/model/levymodel/purejump/cgmy.py", "dom": "R",
@@ -104,7 +120,7 @@ SPECS = {
             _cum("_CGMYCumulant", 1, "cgmy_cumulant1", [("y", R)], _CG_P),
             _cum("_CGMYCumulant", 2, "cgmy_cumulant2", [("c", R), ("g", R), ("m", R), ("y", R)], _CG_P, drift=False),
             _cum("_CGMYCumulant", 4, "cgmy_cumulant4", [("c", R), ("g", R), ("m", R), ("y", R)], _CG_P, drift=False),
-        ],
+        ] + _derived("CGMYParameters", "cgmy", [("c", R), ("g", R), ("m", R), ("y", R)], ["_CGammamY", "_MpowerY", "_GpowerY"]),
     },
     "GenC10Bs": {
         "file": "rpylib/model/levymodel/mixed/blackscholes.py", "dom": "R",
@@ -116,6 +132,19 @@ SPECS = {
              "attrs": {"self.drift": "drift"}},
             {"py": "_BlackScholesCumulant.cumulant2", "coq": "bs_cumulant2", "pyargs": ["t"], "args": [("variance", R), ("t", R)], "ret": R,
              "attrs": {"self.parameters.variance": "variance"}},
+        ],
+    },
+    # jump samplers read pointwise (plug-in harness/py2coq_c10.py): the k-th generator call is the k-th uniform / normal argument
+    "GenC10Jump": {
+        "file": "rpylib/model/levymodel/mixed/hem.py", "dom": "R", "ext": "py2coq_c10",
+        "funcs": [
+            {"py": "HEMModel.jump_increment", "coq": "hem_jump", "pyargs": ["n"],
+             "args": [("p", R), ("eta1", R), ("eta2", R), ("u", R), ("v", R)], "ret": R,
+             "draws": [("np.random.random", "u"), ("np.random.random", "v")],
+             "attrs": {"self.parameters.p": "p", "self.parameters.eta1": "eta1", "self.parameters.eta2": "eta2"}},
+            {"file": "rpylib/model/levymodel/mixed/merton.py", "py": "MertonModel.jump_increment", "coq": "merton_jump", "pyargs": ["n"],
+             "args": [("mu_j", R), ("sigma_j", R), ("g", R)], "ret": R, "draws": [("np.random.normal", "g")],
+             "attrs": {"self.parameters.mu_j": "mu_j", "self.parameters.sigma_j": "sigma_j"}},
         ],
     },
     "GenC10Exp": {
